@@ -1,5 +1,6 @@
 """C45 - shutdown releases every connection and stops accepting work (structure)."""
 import ast
+from .. import sem as _sem45
 
 from ..core import AnalysisError, src, body_walk, walk_no_nested, parent, enclosing, enclosing_func, qual_of
 from ..cfg import CFG, Flow
@@ -190,6 +191,7 @@ def check(chk):
               'afterwards - with its pools and connections - is returned to the caller and never closed')
 
     _handler_rule(chk)
+    _removed_pool_rule(chk)
 
 
 def _may_raise_call(st):
@@ -229,6 +231,31 @@ def _publish(chk, f, is_pub, flag, lock_recv, lockname, close_text):
           any(n.ast is x for t in tests for x in ast.walk(parent(t.ast) if not isinstance(t.ast, ast.If) else t.ast))]
     closes = [n for n in g.stmt_nodes() if n.kind == 'stmt' and src(n.ast) == close_text and fl.at(n) and all(fa.knows(flag) is True for fa, _ in fl.at(n))]
     chk.judge(len(closes) >= 1, 'C45.publish', f, '%s: shut down -> %s' % (qual_of(f), close_text), 'the object created during shutdown is dropped without being closed')
+
+
+def _removed_pool_rule(chk):
+    """a pool that leaves Session._pools is out of reach of Session.shutdown()'s sweep: whoever removed it shuts it down - directly, or through submit when
+    submit accepted the task (submit answers None once the session is shut down)"""
+    chk.rule('C45.removed', 'Session.remove_pool: the popped pool is shut down on every path (pool.shutdown() itself when submit(...) returned None)')
+    cl = chk.repo.mod('cassandra/cluster.py')
+    rp = cl.func('Session.remove_pool')
+    sub = cl.func('Session.submit')
+    declines = any(isinstance(n, ast.If) and 'is_shutdown' in src(n.test) for n in body_walk(sub))
+    pops = [st for st in body_walk(rp) if isinstance(st, ast.Assign) and isinstance(st.value, ast.Call) and src(st.value.func) == 'self._pools.pop']
+    if len(pops) != 1:
+        raise AnalysisError('Session.remove_pool: self._pools.pop not found')
+    pv = src(pops[0].targets[0])
+    g, fl = _sem45.flow_of(rp)
+    submits = [n for n in g.stmt_nodes() if n.kind in ('stmt', 'return') and any(isinstance(c, ast.Call) and src(c.func) == 'self.submit' and c.args and src(c.args[0]) == '%s.shutdown' % pv for c in ast.walk(n.ast))]
+    directs = [n for n in g.stmt_nodes() if n.kind == 'stmt' and isinstance(n.ast, ast.Expr) and src(n.ast.value) == '%s.shutdown()' % pv]
+    ok = bool(submits)
+    if declines:
+        # some path after a declined submit reaches the direct shutdown: the submit result is kept and tested for None
+        kept = [n for n in submits if isinstance(n.ast, ast.Assign)]
+        ok = ok and bool(kept) and bool(directs) and all(all(fa.knows('%s is None' % src(kept[0].ast.targets[0])) is True for fa, _c in fl.at(d)) for d in directs)
+    chk.judge(ok, 'C45.removed', rp, 'remove_pool: submit(pool.shutdown), and pool.shutdown() when the task was not accepted',
+              'the pool is popped and its shutdown only submitted: Session.submit does nothing once the session is shut down, and shutdown()\'s sweep no longer sees the pool - a host going '
+              'down (or up, or being removed) while the session shuts down leaves that pool\'s connections open')
 
 
 def _handler_rule(chk):
